@@ -99,9 +99,23 @@ where
     }
 
     pub(crate) fn unzip(self, expected_output_size: usize) -> Result<Vec<u8>> {
-        let mut decoder = ZlibDecoder::new(self.input);
+        let decoder = ZlibDecoder::new(self.input);
         let mut buffer = Vec::with_capacity(initial_capacity(expected_output_size));
-        decoder.read_to_end(&mut buffer)?;
+        // Read at most one byte more than expected. That is enough to detect
+        // that there is too much data, without decompressing all of it.
+        let limit = (expected_output_size as u64).saturating_add(1);
+        decoder.take(limit).read_to_end(&mut buffer)?;
+        if buffer.len() != expected_output_size {
+            return Err(AsepriteParseError::InvalidInput(format!(
+                "Invalid size of decompressed data. Expected: {}, Actual: {}",
+                expected_output_size,
+                if buffer.len() > expected_output_size {
+                    "more".to_owned()
+                } else {
+                    buffer.len().to_string()
+                }
+            )));
+        }
         Ok(buffer)
     }
 }
